@@ -34,12 +34,16 @@ CHECKS.update({
                 "documented types and TypeError/UnsupportedAnnotation for unsupported ones are checked on pane (not modelled: the model's "
                 "types are post-dispatch). Entry points convert / Cls.from_data / from_json / from_yaml are exercised by the monitor.",
                 technique='Coq proof (escape-freedom from reflected except clauses) + adversarial-leaf correspondence/monitor', design='7 (C04)'),
-    'C05': dict(text=CONV + "Theorems: round trip from_data(into_data(x,T),T)=x proved for all types of the kind-disjoint core fragment (scalars, None, "
-                "lists, variadic and fixed tuples, any nesting) - named _partial; bool stays bool; the union side condition is necessary "
-                "(_refuted with witness). Dataclass layouts/renaming/aliases, mappings, sets, enums, tagged unions: correspondence of the "
-                "serialiser model + round-trip monitor over the configuration product; recorded findings in known_findings.json.",
-                technique='Coq proof on a core fragment (partial) + serialiser correspondence + round-trip monitor', design='7 (C05)'),
-    'C06': dict(text=CONV + "Theorems: convert(x,T)=x and idempotence proved on the core fragment (_partial), with convert modelled as parse(serialise-by-own-class). "
+    'C05': dict(text=CONV + "Theorems (every input, any nesting): round trip from_data(into_data(x,T),T)=x for scalars, None, scalar literals, lists, "
+                "variadic and fixed tuples, Dict[str,T], conditions and unions whose members accept pairwise disjoint kinds of data (named _partial); "
+                "for dataclasses with any renaming / aliases under which every field reads back the key it is written under, in the mapping and (no "
+                "keyword-only field) the sequence form, with what changes stated (the set-field record); at any nesting of such dataclasses, sets, "
+                "containers and Optional[dataclass] up to set-field records (same_val); the side conditions are shown necessary (_refuted witnesses: "
+                "overlapping union, keyword-only field in tuple output). Enums, tagged unions, unions of dataclasses: serialiser correspondence + "
+                "round-trip monitor over the configuration product, with a dynamic test of the overlapping-union cause; recorded findings in known_findings.json.",
+                technique='Coq proof on fragments (partial, incl. renamed and nested dataclasses) + serialiser correspondence + round-trip monitor', design='7 (C05), 12.6'),
+    'C06': dict(text=CONV + "Theorems: convert(x,T)=x, idempotence and 'a typed value offered as data is accepted unchanged' proved on the C05 fragment of scalars, literals, containers, "
+                "Dict[str,T], conditions and kind-disjoint unions (_partial), with convert modelled as parse(serialise-by-own-class). "
                 "Natively built values (Fraction, Decimal, datetime, path, pattern, set, deque, enum, dataclass; nested) and constructor "
                 "arguments are checked on pane; Range / ValueOrList are recorded findings.",
                 technique='Coq proof on a core fragment (partial) + convert correspondence + native-value monitor', design='7 (C06)'),
@@ -65,10 +69,10 @@ CHECKS.update({
                 "the generic and dataclass isinstance gates treat only list/tuple as sequences and only dict as mappings (never text/bytes); for ALL "
                 "types and values an accepted value has a kind the matrix allows for the type's head, and container / tuple / mapping / union "
                 "conversions succeed only through their element conversions (so it holds at every depth and context); results have the target kind, "
-                "same-kind conversion is the identity. Exhaustive 19 targets x 11 kinds x 8 contexts matrix on pane every run.",
+                "same-kind conversion is the identity; a literal is matched by a value of its own kind only. Exhaustive 23 targets x 11 kinds (22 representatives incl. the numbers == identifies with literal / enum members) x 8 contexts matrix on pane every run.",
                 technique='Coq proof over reflected tables + exhaustive kind x target x context matrix', design='7 (C02)'),
     'C07': dict(text=CONV + "Theorems: a sequence/tuple product node's children are exactly the positions whose element is rejected on its own, each child the "
-                "element type's own tree; struct nodes: extra = unknown keys, missing = absent fields; a union node has one child per member in "
+                "element type's own tree; struct and dataclass (mapping path) nodes: extra = exactly the keys that bind to no field, missing = exactly the required fields no key binds to; a union node has one child per member in "
                 "declaration order, each the member's own tree; leaves record the offending value. Dataclass / mapping nodes: correspondence "
                 "(full structural tree equality incl. expected strings) + a compositional monitor on pane; two DictConverter findings recorded.",
                 technique='Coq proof (children/missing/extra/union specs) + tree correspondence + compositional monitor', design='7 (C07)'),
@@ -112,11 +116,11 @@ CHECKS.update({
                 "instances hash equal when hash fields are compare fields (necessary: _refuted). Comparisons of the real classes vs the model in coqc over the "
                 "exhaustive option cube x field flags; frozen, copy, deepcopy, replace, repr on pane. Two findings recorded.",
                 technique='Coq proof (order/equality/hash laws, reflected hash table) + option-cube correspondence', design='7 (C16)'),
-    'C17': dict(text="Coq model of classes._process (dict update over the reversed MRO, override in place, inherited defaults, KW_ONLY, keyword-only partition, positional "
+    'C17': dict(text="Coq model of classes._process (dict update over the reversed MRO, override in place, defaults inherited through the class attribute of the nearest valued ancestor, KW_ONLY, keyword-only partition, positional "
                 "bounds) tied by correspondence on random hierarchies; theorems: effective names are in first-occurrence order, a redeclared field keeps its position "
                 "and takes the last declaration, keyword-only fields are moved back stably, type-variable substitution composes and reaches every occurrence. "
                 "Signature / repr order, generic binding / forwarding / re-declaration / swapping, enforcement of substituted types and option inheritance over "
-                "2-4 levels are checked on pane. The MRO (C3) and typing.Generic internals are Python's.",
+                "2-4 levels, diamonds (the last declaration in base-first MRO order wins, with type and default) and re-parameterised generics are checked on pane. The MRO (C3) and typing.Generic internals are Python's.",
                 technique='Coq proof on the _process model + hierarchy correspondence + generic/option monitors', design='7 (C17)'),
     'C18': dict(text="Theorems over the dispatch order, handler iteration order, class-handler composition and field-converter test reflected from the source by AST: "
                 "the consultation order is field, call, nearest class, outer classes, protocol, scalar built-ins, registered, structural; the converter used is "
@@ -125,8 +129,8 @@ CHECKS.update({
                 "converters; call-level handlers reach every string position of a nested value in both directions.",
                 technique='Coq proof over AST-reflected dispatch order + exhaustive source-subset enumeration', design='7 (C18)'),
     'C19': dict(text="PARTIAL (json / PyYAML are oracles). Theorems: ownership state machine of open_file (caller streams untouched, paths opened and closed by pane on "
-                "every exit, all readers/writers go through it, UTF-8) read from the source by AST; the file round trip is the composition of the serialiser law "
-                "load(dump d)=normalise d, list-vs-tuple insensitivity of reading (proved on the container fragment) and C05. On pane: real files under a scratch "
+                "every exit, all readers/writers go through it, UTF-8) read off the running functions; the file round trip is the composition of the serialiser law "
+                "load(dump d)=normalise d, list-vs-tuple insensitivity of reading (proved for containers, struct types, literals and dataclasses in both input formats) and C05; C19_file_roundtrip_for_types states it for every type in both fragments. On pane: real files under a scratch "
                 "directory, str/Path/open stream/StringIO/returned string, the full formatting-option matrix, non-ASCII and multi-line text, multi-document YAML, "
                 "handles closed also on failure.",
                 technique='Coq proof (ownership machine, composition theorem; serialisers as oracles) + file round-trip monitor (partial)', design='7 (C19)'),
